@@ -163,6 +163,7 @@ def main(argv=None):
     ap.add_argument("--no-min", action="store_true")
     ap.add_argument("--wall-cap", type=float)
     ap.add_argument("--dump-run", type=int)
+    ap.add_argument("--run-tape")
     args = ap.parse_args(argv)
     prop = args.prop
     if prop not in PROPS:
@@ -186,6 +187,12 @@ def main(argv=None):
         a, b = args.digests.split("-")
         d = digests(prop, runfn, seed, range(int(a), int(b) + 1))
         print(json.dumps({str(k): v for k, v in d.items()}))
+        return 0
+    if args.run_tape:
+        with open(args.run_tape) as f:
+            req = json.load(f)
+        r = core.run_inproc(runfn, prop, values=req["tape"], keep_events=req.get("keep_events", False))
+        print(json.dumps(r, default=str))
         return 0
     if args.dump_run is not None:
         r = core.run_isolated(runfn, prop, seed=core.run_seed(seed, prop, args.dump_run), keep_events=True)
@@ -235,34 +242,49 @@ def main(argv=None):
     for _, (k, occs) in sorted(matched.items()):
         print(f"KNOWN-FINDING: property={prop} {k['what']}  (seen {sum(n for _, n in occs)}x this run)")
     nviol = sum(len(o) for o in unknown.values())
-    unconfirmed = []
-    for cls, occ in sorted(unknown.items())[:5]:
-        cands = sorted(occ, key=lambda x: len(x[1].get("tape", [])))[:3]
-        hit = None
-        for run_i, r, v in cands:
-            got, iso = core.confirm(runfn, prop, r)
-            if got and any(core.vclass(g) == cls for g in got):
-                hit = (run_i, r, v)
-                break
-        if hit is None:
-            unconfirmed.append(cls)
-            continue
-        run_i, r, v = hit
-        tape = r["tape"]
+    # ---- confirmation in a fresh interpreter (the same path --replay takes)
+    confirmed = {}
+    if unknown:
+        order = sorted(unknown.items())
+        cands = []
+        for cls, occ in order[:8]:
+            for run_i, r, v in sorted(occ, key=lambda x: len(x[1].get("tape", [])))[:4]:
+                cands.append((run_i, r))
+        confirmed = core.confirm_candidates(prop, seed, cands, set(unknown))
+        if not confirmed:
+            # e.g. a violation that needs CPython to recycle an object id: try every violating run of the batch
+            tried = {c[0] for c in cands}
+            more = [(run_i, r) for cls, occ in order for run_i, r, v in occ if run_i not in tried][:400]
+            confirmed = core.confirm_candidates(prop, seed, more, None, budget_s=180.0)
+    unconfirmed = [cls for cls in sorted(unknown) if cls not in confirmed]
+    shown = 0
+    for cls, (run_i, tape, fres) in sorted(confirmed.items()):
+        if shown >= 5:
+            break
+        shown += 1
+        occ = unknown.get(cls, [])
         if not args.no_min:
-            tape = core.minimise(runfn, prop, tape, cls)
-        path = core.write_replay(prop, seed, run_i, runfn, tape, cls)
+            small = core.minimise(runfn, prop, tape, cls)
+            if small != tape:
+                chk = core.run_fresh(prop, small, seed, keep_events=True)
+                if chk.get("status") == "ok" and any(core.vclass(x) == cls for x in chk.get("violations", [])):
+                    tape, fres = small, chk
+        path = core.write_replay(prop, seed, run_i, tape, cls, fres)
+        v = next(x for x in fres["violations"] if core.vclass(x) == cls)
         print(f"VIOLATION property={prop} replay={path}")
-        print(f"  clause={cls[1]} class={cls[2]} occurrences={len(occ)} first-run={occ[0][0]}")
+        print(f"  clause={cls[1]} class={cls[2]} occurrences={len(occ)} run={run_i}")
         print(f"  {v['msg']}")
         exit_code = 1
-    for cls in unconfirmed:
-        print(f"HARNESS-ERROR violation class {cls} seen in the batch did not reproduce in a pristine forked child "
-              f"(the run depends on what the worker process did before; see C16)")
-        if exit_code == 0:
-            exit_code = 2
-    if len(unknown) > 5:
-        print(f"  ... and {len(unknown) - 5} more violation classes: {sorted(unknown)[5:]}")
+    if confirmed and unconfirmed:
+        print(f"note: {len(unconfirmed)} further violation class(es) of the batch were not re-confirmed one by one: "
+              f"{unconfirmed[:6]}")
+    if unknown and not confirmed:
+        for cls in unconfirmed[:5]:
+            print(f"HARNESS-ERROR violation class {cls} seen in the batch did not reproduce in a fresh interpreter "
+                  f"(the run depends on what the worker process did before; see C16)")
+        exit_code = 2
+    if len(confirmed) > 5:
+        print(f"  ... and {len(confirmed) - 5} more confirmed violation classes: {sorted(confirmed)[5:15]}")
     wall = time.monotonic() - t0
     extra = {
         "rule": getattr(mod, "RULES", {}).get(prop, ""),
